@@ -69,7 +69,7 @@ theorem C14_session (x : W) (b : Bytes) :
 /-- **File content, all histories**: at every moment a file / binary stream / recorder has been
     given exactly the concatenation of its session's statements, a text stream exactly their
     decoded text; the session is a suffix of everything received, and all of it for a
-    user-supplied stream or a recorder; a closed path file has nothing unflushed; a stream behind a
+    user-supplied stream or a recorder; a writer that is not connected has left nothing unflushed; a stream behind a
     terminal (or a `ConsoleWriter`) never has; a stream the writer did not open is never closed. -/
 theorem C14_content_invariant (cfg : Nat → Kind × Bool) (ops : List Op) (w : Nat) :
     let x := (run (St.init cfg) ops).ws w
@@ -77,7 +77,7 @@ theorem C14_content_invariant (cfg : Nat → Kind × Bool) (ops : List Op) (w : 
     ∧ (x.kind = .text → x.text = x.sess.flatMap decoded)
     ∧ (∃ pre, x.recv = pre ++ x.sess)
     ∧ (x.kind ≠ .path → x.sess = x.recv)
-    ∧ (x.kind = .path → x.isOpen = false → x.dirty = false)
+    ∧ (x.isOpen = false → x.dirty = false)
     ∧ (x.tty = true → x.kind ≠ .path → x.dirty = false)
     ∧ (x.kind ≠ .path → x.closed = false) := by
   obtain ⟨h1, h2, h3, h4, h5, h6, _, h8⟩ := (run_init cfg ops w).1
@@ -87,14 +87,16 @@ theorem C14_content_invariant (cfg : Nat → Kind × Bool) (ops : List Op) (w : 
     a path-based file has nothing unflushed and holds exactly its session's statements (after
     `teardown` it is closed as well); a user-supplied stream holds everything written while the
     writer was registered — as bytes for a binary stream, as the original text for a text stream —
-    and has nothing unflushed after `flush()` if it is open. -/
+    and has nothing unflushed either: `flush()` flushes whatever object the writer is connected to,
+    `teardown()` flushes a caller's object before detaching it (and leaves it open for its owner). -/
 theorem C14_file_content (cfg : Nat → Kind × Bool) (ops : List Op) (w : Nat) (op : Op)
     (hop : op = .flush ∨ op = .teardown) (hreg : w ∈ (run (St.init cfg) ops).reg) :
     let x := (run (St.init cfg) (ops ++ [op])).ws w
     (x.kind = .path → x.dirty = false ∧ x.data = x.sess.flatten ∧ (op = .teardown → x.isOpen = false))
     ∧ (x.kind = .binary → x.data = ((written w false ops).map utf8).flatten)
     ∧ (x.kind = .text → x.text = (written w false ops).flatten)
-    ∧ (x.kind ≠ .custom → op = .flush → x.isOpen = true → x.dirty = false) := by
+    ∧ (x.dirty = false)
+    ∧ (op = .teardown → x.isOpen = false) := by
   intro x
   have hinv : SInv x := (run_init cfg (ops ++ [op]) w).1
   have hrecv : x.recv = (written w false ops).map utf8 := by
@@ -110,7 +112,7 @@ theorem C14_file_content (cfg : Nat → Kind × Bool) (ops : List Op) (w : Nat) 
   have hprev := (run_init cfg ops w).1
   generalize (run (St.init cfg) ops).ws w = y at hx hprev
   clear_value x
-  refine ⟨fun hk => ⟨?_, hinv.data_eq (by rw [hk]; simp), ?_⟩, fun hk => ?_, fun hk => ?_, fun hk hf ho => ?_⟩
+  refine ⟨fun hk => ⟨?_, hinv.data_eq (by rw [hk]; simp), ?_⟩, fun hk => ?_, fun hk => ?_, ?_, fun hf => ?_⟩
   · -- path: clean after flush / teardown
     obtain ⟨kind, tty, isOpen, data, text, dirty, closed, discs, recv, sess⟩ := y
     have hc := hprev.closedClean
@@ -122,9 +124,14 @@ theorem C14_file_content (cfg : Nat → Kind × Bool) (ops : List Op) (w : Nat) 
   · rw [hinv.data_eq (by rw [hk]; simp), hinv.stream (by rw [hk]; simp), hrecv]
   · rw [hinv.text_eq hk, hinv.stream (by rw [hk]; simp), hrecv]
     exact flatMap_decoded_utf8 _ (written_valid w ops false)
+  · obtain ⟨kind, tty, isOpen, data, text, dirty, closed, discs, recv, sess⟩ := y
+    have hc := hprev.closedClean
+    have hcu := hprev.custom
+    rcases hop with rfl | rfl <;> subst hx <;> cases kind <;> cases isOpen <;>
+      simp_all [wStep, W.flush, W.disconnect]
   · subst hf
     obtain ⟨kind, tty, isOpen, data, text, dirty, closed, discs, recv, sess⟩ := y
-    subst hx; cases kind <;> cases isOpen <;> simp_all [wStep, W.flush]
+    subst hx; cases kind <;> cases isOpen <;> simp_all [wStep, W.disconnect]
 
 /-- **`bytes(line, "utf-8").decode("utf-8") == line`** for every line that can be encoded — what
     makes the text-stream clause above meaningful. -/
@@ -133,7 +140,8 @@ theorem C14_utf8_roundtrip (l : Line) (h : validLine l = true) : utf8Decode (utf
 
 /-- **Teardown**: the list is empty afterwards; every writer that was registered has been asked to
     disconnect exactly once more and is no longer open; a path-based file it had opened is closed
-    and flushed; writers that were not registered are not touched. -/
+    and flushed; a file object provided by the caller is flushed and not closed; writers that were
+    not registered are not touched. -/
 theorem C14_teardown (s : St) :
     (step s .teardown).reg = []
     ∧ (∀ w ∈ s.reg,
@@ -141,6 +149,7 @@ theorem C14_teardown (s : St) :
         x.isOpen = false ∧ x.discs = (s.ws w).discs + 1
         ∧ (x.kind = .path → (s.ws w).isOpen = true → x.closed = true ∧ x.dirty = false)
         ∧ (x.kind ≠ .path → x.closed = (s.ws w).closed)
+        ∧ (x.kind ≠ .custom → (s.ws w).isOpen = true → x.dirty = false)
         ∧ x.data = (s.ws w).data ∧ x.text = (s.ws w).text)
     ∧ (∀ w, w ∉ s.reg → (step s .teardown).ws w = s.ws w) := by
   refine ⟨rfl, fun w hw => ?_, fun w hw => ?_⟩
